@@ -3,8 +3,8 @@ import LunarVerif.Model.C01
 Property C01 in observable terms.  Two layers, none of which mentions counters, memos or any
 other field of the model state:
 
-* **Level layer** (`tally`, `windowsOf`): over the log of calls to one `quota` object
-  (`quota.Inc` with its `incResult`, `quota.Allowed` with its answer).  Windows are what a reader
+* **Level layer** (`tally`, `windowsOf`): over the log (most recent event first) of calls to one
+  `quota` object (`quota.Inc` with its `incResult`, `quota.Allowed` with its answer).  Windows are what a reader
   of the log reconstructs from the instants of the charged arrivals: the first one opens `W₀` at its
   (second-truncated) instant, the first charged arrival with `t − start(W_k) ≥ window` opens
   `W_{k+1}`.  Used by the theorems about *all* interleavings.
